@@ -26,6 +26,31 @@ let () =
     let line = input_line stdin in
     match String.split_on_char ' ' line |> List.filter (fun x -> x <> "") with
     | [] -> print_endline ""
+    | "Y" :: ar :: u :: size :: nl :: k :: rest ->
+      (* layered loader:  Y <auto_reload> <F|C> <size> <number of layers> <k> (<layer> <name> <version>)*k <op>...
+         ops: g:<n>  s:<n,..>  p<layer>:<n>:<v>  d<layer>:<n>   (layers counted from 1) *)
+      let u = (match u with "F" -> LFs | "C" -> LChoice | _ -> failwith "bad lupt") in
+      let nl = int_of_string nl and k = int_of_string k in
+      let tbl = Array.make nl [] in
+      let rec take i l = if i = 0 then l else
+          (match l with j :: n :: v :: r -> let j = int_of_string j - 1 in
+             tbl.(j) <- (int_of_string n, int_of_string v) :: tbl.(j); take (i - 1) r
+           | _ -> failwith "bad init") in
+      let ops = take k rest in
+      let layer_of lst = (fun n -> match List.assoc_opt (int_of_n n) lst with Some v -> Some (n_of_int v) | None -> None) in
+      let ls = Array.to_list (Array.map layer_of tbl) in
+      let parse s =
+        match String.split_on_char ':' s with
+        | ["g"; n] -> LGet (n_of_int (int_of_string n))
+        | ["s"; ns] -> LSelect (if ns = "" then [] else List.map (fun x -> n_of_int (int_of_string x)) (String.split_on_char ',' ns))
+        | [pj; n; v] when String.length pj >= 2 && pj.[0] = 'p' ->
+          LPut (n_of_int (int_of_string (String.sub pj 1 (String.length pj - 1)) - 1), n_of_int (int_of_string n), n_of_int (int_of_string v))
+        | [dj; n] when String.length dj >= 2 && dj.[0] = 'd' ->
+          LDel (n_of_int (int_of_string (String.sub dj 1 (String.length dj - 1)) - 1), n_of_int (int_of_string n))
+        | _ -> failwith ("bad layered op " ^ s) in
+      let e = new_lenv (ar = "1") u (z_of_int (int_of_string size)) ls in
+      let (_, xs) = lrun e (List.map parse ops) in
+      print_endline (String.concat ";" (List.map show xs))
     | ar :: u :: size :: k :: rest ->
       let u = (match u with "N" -> UNone | "V" -> UVersion | "T" -> UConst true | "F" -> UConst false | _ -> failwith "bad upt") in
       let k = int_of_string k in
